@@ -59,6 +59,7 @@ func main() {
 	units := flag.Int("units", 10, "free: program units (autocommit statement or transaction) per session")
 	uniq := flag.String("uniq", "", "comma separated case files written by TLC from spec/SQLUniq.tla (composite unique indexes)")
 	catf := flag.String("cat", "", "behaviours printed by TLC from spec/SQLCat.tla (catalog visibility across sessions)")
+	ddlf := flag.String("ddl", "", "behaviours printed by TLC from spec/SQLDdl.tla (transactional DDL isolation)")
 	par := flag.Int("par", 6, "behaviours replayed in parallel (each on its own store)")
 	selftest := flag.Bool("selftest", false, "corrupt one expected value (binding self-test)")
 	flag.Parse()
@@ -77,6 +78,8 @@ func main() {
 		runUniq(strings.Split(*uniq, ","), *dir, res)
 	case *catf != "":
 		runCat(*catf, *dir, *par, res)
+	case *ddlf != "":
+		runDdl(*ddlf, *dir, *par, res)
 	case *free != "":
 		runFree(*free, *dir, *seed, *runs, *workers, *units, res)
 	default:
